@@ -1,5 +1,6 @@
 import HW.Model.ClusterSys
 import HW.Proofs.Cluster
+import HW.Proofs.ClusterSysRound
 namespace HW.ClusterSys
 open HW.Cluster
 
@@ -18,17 +19,115 @@ structure Consistent (s : Sys) : Prop where
   agree : Agree s
   keys : ∀ n ∈ s.nodes, ∀ a ∈ n.agent.activated, a.1 = a.2.2
 
+
+/-! ### helpers (the generic round argument is in `HW.Proofs.ClusterSysRound`) -/
+
+theorem bcast_activation_log (n : Node) (pid : Pid) (ms : List Member) (s : Sys) :
+    (bcast s n ms (.activation pid)).log = s.log := by
+  unfold bcast
+  induction ms generalizing s with
+  | nil => rfl
+  | cons m ms ih =>
+    rw [List.foldl_cons, ih]
+    split
+    · split
+      · rfl
+      · rfl
+    · rfl
+
+theorem spawnOn_log (s : Sys) (t : Node) (k : String) :
+    (spawnOn s t k).log = s.log ∨ (spawnOn s t k).log = s.log ++ ["spawn:" ++ t.id ++ ":" ++ k] := by
+  unfold spawnOn
+  split
+  · exact Or.inl rfl
+  · exact Or.inr rfl
+
+theorem spawnOn_base {note : Note} {k' : String} {OK : AgentSt → Prop} {s : Sys} {t : Node} (k : String)
+    (hb : Base note k' OK s) (ht : t ∈ s.nodes) : Base note k' OK (spawnOn s t k) := by
+  unfold spawnOn
+  split
+  · exact hb
+  · refine base_congr (s := setNode s { t with actors := t.actors ++ [k] }) rfl hb.poolNote ?_
+    exact base_setNode hb ht rfl rfl (hb.keys t ht) (hb.ok t ht) (fun _ _ => rfl)
+
+/-- a consistent cluster satisfies the round invariant's base for any key nobody is in the middle of changing. -/
+theorem base_of_consistent {note : Note} {k : String} {OK : AgentSt → Prop} {s : Sys} (hc : Consistent s)
+    (hok : ∀ n ∈ s.nodes, OK n.agent) : Base note k OK s :=
+  ⟨⟨hc.nodesNodup, hc.membersNodup, hc.view⟩, hc.keys, fun n hn m hm k' _ => hc.agree n hn m hm k', hok,
+   by rw [hc.poolEmpty]; intro e he; cases he⟩
+
+/-- when the pool has been emptied every node is done, and the cluster is consistent again. -/
+theorem consistent_of_inv {note : Note} {k : String} {Done OK : AgentSt → Prop} {s : Sys}
+    (hi : Inv note k Done OK s) (hp : s.pool = [])
+    (hag : ∀ n m : Node, Done n.agent → Done m.agent → getActiveByID n k = getActiveByID m k) :
+    Consistent s ∧ ∀ n ∈ s.nodes, Done n.agent := by
+  have hd : ∀ n ∈ s.nodes, Done n.agent := by
+    intro n hn
+    rcases hi.2 n hn with h | h
+    · exact h
+    · rw [hp] at h; cases h
+  refine ⟨⟨hp, hi.1.struct.1, hi.1.struct.2.1, hi.1.struct.2.2, ?_, hi.1.keys⟩, hd⟩
+  intro n hn m hm k'
+  by_cases hk : k' = k
+  · rw [hk]; exact hag n m (hd n hn) (hd m hm)
+  · exact hi.1.agreeOther n hn m hm k' hk
+
+def DoneA (k : String) (pid : Pid) (a : AgentSt) : Prop := (a.activated.find? (·.1 = k)).map (·.2) = some pid
+def OKA (k : String) (pid : Pid) (a : AgentSt) : Prop := DoneA k pid a ∨ a.activated.find? (·.1 = k) = none
+
+theorem specA (pid : Pid) :
+    Spec (.activation pid) pid.2 (fun a => addActivated a pid) (DoneA pid.2 pid) (OKA pid.2 pid) where
+  handle s n := ⟨{ n with agent := addActivated n.agent pid }, rfl, rfl, rfl, rfl⟩
+  members a := addActivated_members a pid
+  other a k' h := addActivated_find_other a pid k' h
+  keys a h := addActivated_keys a pid h
+  done a h := by
+    have : DoneA pid.2 pid (addActivated a pid) := by
+      rcases h with h | h
+      · unfold DoneA at h ⊢
+        cases hf : a.activated.find? (·.1 = pid.2) with
+        | none => rw [hf] at h; cases h
+        | some e => rw [addActivated_find_known a pid e hf]; rw [hf] at h; exact h
+      · unfold DoneA
+        rw [addActivated_find_new a pid h]; rfl
+    exact ⟨this, Or.inl this⟩
+
+theorem specD (pid : Pid) :
+    Spec (.deactivation pid) pid.2 (fun a => removeActivated a pid)
+      (fun a => a.activated.find? (·.1 = pid.2) = none) (fun _ => True) where
+  handle s n := by
+    simp only [handleNote]
+    split
+    · exact ⟨{ n with agent := removeActivated n.agent pid, actors := n.actors.filter (· ≠ pid.2) },
+        rfl, rfl, rfl, rfl⟩
+    · exact ⟨{ n with agent := removeActivated n.agent pid }, rfl, rfl, rfl, rfl⟩
+  members _ := rfl
+  other a k' h := removeActivated_find_other a pid k' h
+  keys a h := removeActivated_keys a pid h
+  done a _ := ⟨removeActivated_find_self a pid, trivial⟩
+
 /-- Activate returns nil and changes nothing if the id is already known to the issuing member. -/
 theorem activate_known_nil (s : Sys) (nid kind id : String) (sel : Option Nat) (n : Node)
     (hn : getNode s nid = some n) (hk : n.agent.activated.any (·.1 = key kind id) = true) :
     activate s nid kind id sel = (s, none) := by
-  sorry
+  unfold activate
+  rw [hn]
+  simp only [hk, if_true]
 
 /-- Activate returns nil and changes nothing if no member of the view advertises the kind. -/
 theorem activate_nokind_nil (s : Sys) (nid kind id : String) (sel : Option Nat) (n : Node)
     (hn : getNode s nid = some n) (hk : ∀ m ∈ n.agent.members, m.kinds.contains kind = false) :
     activate s nid kind id sel = (s, none) := by
-  sorry
+  have hf : n.agent.members.filter (fun m => m.kinds.contains kind) = [] := by
+    rw [List.filter_eq_nil_iff]
+    intro m hm
+    rw [hk m hm]; simp
+  unfold activate
+  rw [hn]
+  simp only [hf]
+  split
+  · rfl
+  · simp [sortById]
 
 /-- if Activate returns a PID: it is `kind/id` on a node that registered the kind, chosen among the
     members advertising it; at most one actor is spawned, and only there. -/
@@ -40,7 +139,15 @@ theorem activate_some (s : Sys) (nid kind id : String) (sel : Option Nat) (pid :
       (∃ m ∈ n.agent.members, m.id = t.id ∧ m.kinds.contains kind = true) ∧
       ((activate s nid kind id sel).1.log = s.log ∨
        (activate s nid kind id sel).1.log = s.log ++ ["spawn:" ++ t.id ++ ":" ++ key kind id]) := by
-  sorry
+  rcases activate_shape s nid kind id sel with hnone | ⟨n, t, m, n1, hn, _, hm, hmk, ht, htk, _, heq⟩
+  · rw [hnone] at h; cases h
+  · rw [heq] at h ⊢
+    simp only [Option.some.injEq] at h
+    subst h
+    refine ⟨rfl, n, t, hn, ?_, rfl, htk, ⟨m, hm, (getNode_some ht).2.symm, hmk⟩, ?_⟩
+    · rw [(getNode_some ht).2]; exact ht
+    · simp only [bcast_activation_log]
+      exact spawnOn_log s t (key kind id)
 
 /-- Agreement: in a consistent cluster, once the notifications of a successful Activate have been
     delivered — in ANY order — every member resolves kind/id to the PID that was returned, and the
@@ -51,7 +158,28 @@ theorem activate_agreement (s : Sys) (hc : Consistent s) (nid kind id : String) 
     (hlen : (activate s nid kind id sel).1.pool.length ≤ order.length) :
     Consistent (drain (activate s nid kind id sel).1 order) ∧
     ∀ n ∈ (drain (activate s nid kind id sel).1 order).nodes, getActiveByID n (key kind id) = some pid := by
-  sorry
+  rcases activate_shape s nid kind id sel with hnone | ⟨n, t, m, n1, hn, hk, _, _, ht, _, hn1, heq⟩
+  · rw [hnone] at h; cases h
+  · rw [heq] at h hlen ⊢
+    simp only [Option.some.injEq] at h
+    subst h
+    simp only at hlen ⊢
+    -- nobody knows the key before
+    have hnone : ∀ y ∈ s.nodes, y.agent.activated.find? (·.1 = key kind id) = none := by
+      intro y hy
+      have := hc.agree y hy n (getNode_some hn).1 (key kind id)
+      rw [getActiveByID_none.mpr (find_any_false.mp hk)] at this
+      exact getActiveByID_none.mp this
+    have hb : Base (.activation (t.host, key kind id)) (key kind id)
+        (OKA (key kind id) (t.host, key kind id)) s :=
+      base_of_consistent hc (fun y hy => Or.inr (hnone y hy))
+    have hb1 := spawnOn_base (key kind id) hb (getNode_some ht).1
+    obtain ⟨hn1m, _⟩ := getNode_some hn1
+    have hinv := bcast_inv (specA (t.host, key kind id)) n1 n1.agent.members hb1
+      (fun y hy => (hb1.struct.2.2 n1 hn1m y.id).mpr ⟨y, hy, rfl⟩)
+    obtain ⟨hinv', hpool⟩ := drain_inv (specA (t.host, key kind id)) order hinv hlen
+    exact consistent_of_inv hinv' hpool (fun a b ha hb => by
+      unfold DoneA at ha hb; unfold getActiveByID; rw [ha, hb])
 
 /-- Deactivate removes the entry on every member, whatever the arrival order. -/
 theorem deactivate_everywhere (s : Sys) (hc : Consistent s) (nid : String) (pid : Pid) (order : List Nat)
@@ -59,6 +187,18 @@ theorem deactivate_everywhere (s : Sys) (hc : Consistent s) (nid : String) (pid 
     (hlen : (deactivate s nid pid).pool.length ≤ order.length) :
     Consistent (drain (deactivate s nid pid) order) ∧
     ∀ n ∈ (drain (deactivate s nid pid) order).nodes, getActiveByID n pid.2 = none := by
-  sorry
+  cases hg : getNode s nid with
+  | none => rw [hg] at hn; cases hn
+  | some n =>
+    unfold deactivate at hlen ⊢
+    rw [hg] at hlen ⊢
+    have hb : Base (.deactivation pid) pid.2 (fun _ => True) s := base_of_consistent hc (fun _ _ => trivial)
+    obtain ⟨hnm, _⟩ := getNode_some hg
+    have hinv := bcast_inv (specD pid) n n.agent.members hb
+      (fun y hy => (hb.struct.2.2 n hnm y.id).mpr ⟨y, hy, rfl⟩)
+    obtain ⟨hinv', hpool⟩ := drain_inv (specD pid) order hinv hlen
+    obtain ⟨hcons, hd⟩ := consistent_of_inv hinv' hpool (fun a b ha hb => by
+      unfold getActiveByID; rw [ha, hb])
+    exact ⟨hcons, fun y hy => getActiveByID_none.mpr (hd y hy)⟩
 
 end HW.ClusterSys
